@@ -96,6 +96,7 @@ class Path(object):
         self.byte_excl = {}      # ast id of a byte variable -> set of excluded ints
         self.byte_dom = {}       # ast id of a byte variable -> frozenset of allowed ints
         self.nvars = 0
+        self.order = {}          # ast id of a declared variable -> declaration number
         self.seed = seed
         self.inconclusive = None
         self.realised = 0
@@ -297,6 +298,8 @@ class Path(object):
     def fresh_byte(self, name, exclude=(), domain=None):
         self.nvars += 1
         v = z3.BitVec("%s" % name, 8)
+        self.order[v.get_id()] = self.nvars
+        self._keep.append(v)
         if domain is not None:
             dom = frozenset(domain)
             self.byte_dom[v.get_id()] = dom
@@ -469,10 +472,20 @@ def byte_eq(a, b):
         return a == b
     if a.get_id() == b.get_id():
         return True
-    # canonical argument order so that the atom table sees one literal
-    if a.get_id() > b.get_id():
+    # canonical, run-independent argument order so that the atom table sees one
+    # literal (AST ids depend on allocation history and must not influence the trace)
+    if _order_key(a) > _order_key(b):
         a, b = b, a
     return a == b
+
+
+def _order_key(x):
+    p = CUR
+    if p is not None:
+        k = p.order.get(x.get_id())
+        if k is not None:
+            return (0, k, "")
+    return (1, 0, x.sexpr())
 
 
 def byte_lt(a, b):
